@@ -38,11 +38,11 @@ coordinate system) cannot hide another.
 
 Bounds
 ------
-quick   : per coordinate system 600 random points (uniform on the sphere) + ~470 special points (poles, equator
+quick   : per coordinate system 400 random points (uniform on the sphere) + ~470 special points (poles, equator
           diamond, seam lon = 0 / 2 pi / pi, meridians k pi/2, all lattice corners of level <= 3, points on tile
           edges of level <= 4, |lat| within 1e-9..0.5 deg of the poles); tile look-up at every depth 0..10 (nesting)
-          and one depth in 11..20; periodicity with k in {-1000, -3, -1, 1, 2, 1000}; 250 pixel look-ups
-          (depth 0..10) + 40 with shifted longitude.
+          and one depth in 11..20; periodicity with k in {-1000, -3, -1, 1, 2, 1000}; 200 pixel look-ups
+          (depth 0..10) + 30 with shifted longitude.
 thorough: 12000 random + ~1300 special points (corners to level 4, edges to level 5), depths 0..16 and one in 17..24;
           4000 pixel look-ups + 500 shifted.
 
@@ -61,6 +61,8 @@ from rt.common import call_isolated
 TOL_IN = 1e-10        # rad, containment
 TOL_PIX = 2.0 + 1e-9  # pixels
 ONE_DEG = math.pi / 180.0
+# workers are single-threaded: 14 of them already fill the machine (BLAS threads would oversubscribe it)
+_ONE_THREAD = {"OMP_NUM_THREADS": "1", "OPENBLAS_NUM_THREADS": "1", "MKL_NUM_THREADS": "1"}
 CAP = 4
 EPS = 2.220446049250313e-16
 
@@ -297,7 +299,7 @@ def _build(ctx, coordsys):
     if ctx.thorough:
         n_rand, corner_level, edge_level, dmax, dtop, n_pix, n_pix_shift = 12000, 4, 5, 16, 24, 4000, 500
     else:
-        n_rand, corner_level, edge_level, dmax, dtop, n_pix, n_pix_shift = 600, 3, 4, 10, 20, 250, 40
+        n_rand, corner_level, edge_level, dmax, dtop, n_pix, n_pix_shift = 400, 3, 4, 10, 20, 200, 30
     pts = [(math.asin(rng.uniform(-1, 1)), rng.uniform(0, S.TWOPI), "random") for _ in range(n_rand)]
     pts += _special_points(coordsys, rng, corner_level, edge_level)
     ks_all = [-1000, -3, -1, 1, 2, 1000]
@@ -350,7 +352,7 @@ def run(ctx):
 
     def do(job):
         coordsys, tp, pp = job
-        return job, call_isolated("rt.c12", "work", {"coordsys": coordsys, "tile_points": tp, "pixel_points": pp}, timeout)
+        return job, call_isolated("rt.c12", "work", {"coordsys": coordsys, "tile_points": tp, "pixel_points": pp}, timeout, env=_ONE_THREAD)
 
     with ThreadPoolExecutor(max_workers=nworkers) as ex:
         results = list(ex.map(do, jobs))
